@@ -40,7 +40,7 @@ def main():
     meta = json.load(open(os.path.join(src, "meta.json")))
     pid = meta["property"]
     name = a.name or pid
-    wt = "/tmp/seedrun_wt"          # fixed path: the content-addressed cache then only rebuilds what the patch touches
+    wt = os.environ.get("SEEDRUN_WT", "/tmp/seedrun_wt")          # fixed path: the content-addressed cache then only rebuilds what the patch touches
     cache = os.path.join(VERIF, ".cache")
     sh(["git", "-C", "/repo", "worktree", "remove", "--force", wt])
     env = dict(os.environ, VERIF_REPO=wt, VERIF_CACHE=cache, PYTHONPATH=VERIF)
@@ -82,7 +82,8 @@ def main():
             res["checks"] = {}
             for c in checks:
                 t0 = time.time()
-                env2 = dict(os.environ, VERIF_REPO=wt)
+                scratch = wt + ".out"
+                env2 = dict(os.environ, VERIF_REPO=wt, VERIF_EVIDENCE_DIR=scratch + "/evidence", VERIF_REPLAY_DIR=scratch + "/replays")
                 r = sh(["./check", c, "--tier", a.tier], env=env2, cwd=VERIF, timeout=6 * 3600)
                 keys = []
                 for m in re.finditer(r"VIOLATION property=\S+ replay=(\S+)", r.stdout):
@@ -96,6 +97,7 @@ def main():
                                     "tail": r.stdout.strip().splitlines()[-1:] + r.stderr.strip().splitlines()[-2:]}
     finally:
         sh(["git", "-C", "/repo", "worktree", "remove", "--force", wt])
+        shutil.rmtree(wt + ".out", ignore_errors=True)
     confirmed = a.skip_confirm or (res.get("demo_clean_exit") == 0 and res.get("patch_applies") and
                                    res.get("demo_patched_exit", 0) != 0 and "86 passed" in res.get("pinned_tests", ""))
     res["confirmed"] = bool(confirmed)
